@@ -96,6 +96,13 @@ pub fn entries() -> Vec<String> {
     v.push("0.0.1".to_string());
     v.push("1".to_string());
     v.push(".".to_string());
+    // other spellings of hosts that are in the list (short-form and hexadecimal IPv4, an uncompressed IPv6 literal, a
+    // percent-encoded letter): an entry is a name to compare with, not something to interpret
+    v.push("10.1".to_string());
+    v.push("0xa.0.0.1".to_string());
+    v.push("[0:0:0:0:0:0:0:1]".to_string());
+    v.push("%61".to_string());
+    v.push("a.%62".to_string());
     v
 }
 
